@@ -11,6 +11,7 @@ import (
 // c05Extra: rules added after the fourth independent seeding round.
 func c05Extra(r *core.Run) {
 	p := r.P
+	c05Panics(r)
 	r.Check("D4/K6/range-bound-uses-its-own-flag", "every boundary-inclusive comparison of a value with numberRange.left (resp. right) in lib/mapping – the unmarshalling validator and the marshalling one used by httpc – is made only when leftInclude (resp. rightInclude) is false: the bracket of a bound decides that bound", func(o *core.O) {
 		n := 0
 		for _, f := range p.PkgFuncs("lib/mapping") {
